@@ -134,7 +134,7 @@ Proof.
   - intros n Hn. destruct n as [|[|[|n]]]; [| | |lia]; intro H; vm_compute in H; discriminate H.
   - cbv zeta. split.
     + intro H. vm_compute in H. discriminate H.
-    + vm_compute. reflexivity.
+    + apply Qc_is_canon. vm_compute. reflexivity.
 Qed.
 
 (** The cloud-moist class refutes the invariance: with non-zero condensate the
